@@ -133,7 +133,7 @@ def main():
             {"name": "writepool", "path": "specs/TraceWritePool.tla + specs/WritePool.tla + specs/Locks.tla + harness/src/poolstress.rs + lib/prop_c20.py", "serves_properties": ["C20"], "kind_free_text": "TLA+ models checked by TLC; program extraction from recorded events"},
             {"name": "subcatchup", "path": "specs/SubCatchUp.tla + harness/src/subrace.rs + lib/prop_c12.py", "serves_properties": ["C12"], "kind_free_text": "TLA+ model checked by TLC; schedule forcing with pause points; stream oracle"},
             {"name": "matcher", "path": "specs/Matcher.tla + harness/src/matchwalk.rs + lib/prop_c11.py", "serves_properties": ["C11"], "kind_free_text": "TLA+ model checked by TLC; differential oracle against SQLite on real subscriptions"},
-            {"name": "updates", "path": "specs/Updates.tla + harness/src/updwalk.rs + lib/prop_c14.py", "serves_properties": ["C14"], "kind_free_text": "TLA+ model checked by TLC; real feed judged"},
+            {"name": "updates", "path": "specs/Updates.tla + harness/src/updwalk.rs + harness/src/updorder.rs + lib/prop_c14.py", "serves_properties": ["C14"], "kind_free_text": "TLA+ model checked by TLC; real feed judged; arrival orders of the model replayed on the real update handle"},
             {"name": "sublifecycle", "path": "specs/SubLifecycle.tla + harness/src/sublife.rs + lib/prop_c13.py", "serves_properties": ["C13"], "kind_free_text": "TLA+ model checked by TLC; real stop/restart scenarios judged"},
             {"name": "cluster", "path": "specs/Cluster.tla + harness/src/clusterprobe.rs + lib/prop_c16.py", "serves_properties": ["C16"], "kind_free_text": "TLA+ model checked by TLC; matrix replayed on real agents"},
             {"name": "apigate", "path": "specs/ApiGate.tla + harness/src/apigate.rs + lib/prop_c17.py", "serves_properties": ["C17"], "kind_free_text": "enumerated tables checked by TLC and replayed on a live listener"},
